@@ -28,6 +28,7 @@ var lockTypes = []lockType{
 	{"internal/chain/beacon", "Handler"},
 	{"internal/core", "BeaconProcess"},
 	{"internal/core", "DrandDaemon"},
+	{"handler/http", "DrandHandler"},
 }
 
 type acq struct {
